@@ -28,7 +28,7 @@ PASS, VIOLATION, INCONCLUSIVE = "PASS", "VIOLATION", "INCONCLUSIVE"
 class Job:
     def __init__(self, crate, harness, *, cfgs=(), env=None, timeout=900, mem_gb=8,
                  kind="proof", covers=None, unwindset=None, stubbing=False,
-                 bounds="", note="", extra_args=()):
+                 bounds="", note="", extra_args=(), unwind_fns=None):
         self.crate = crate            # directory under /verif/kani
         self.harness = harness        # fully qualified, e.g. c15::c15_step_vec
         self.cfgs = tuple(cfgs)       # extra --cfg names (hooks)
@@ -42,6 +42,7 @@ class Job:
         self.bounds = bounds
         self.note = note
         self.extra_args = tuple(extra_args)
+        self.unwind_fns = dict(unwind_fns or {})  # regex on demangled function name -> loop bound
 
     def config_key(self):
         h = hashlib.sha1(json.dumps([self.crate, self.cfgs, sorted(self.env.items())]).encode()).hexdigest()[:10]
@@ -116,7 +117,28 @@ def build(job, log):
         return lock[1]
 
 
-CHECK_RE = re.compile(r"^Check (\d+): (\S+)\n\t - Status: (\w+)\n\t - Description: \"(.*)\"\n\t - Location: (.*)$", re.M)
+def resolve_unwindset(job):
+    """Per-loop bounds: loop ids are read from the harness's GOTO binary (cbmc --show-loops)
+    after code generation, and matched by demangled function name."""
+    import glob
+    short = job.harness.split("::")[-1]
+    pats = glob.glob(os.path.join(target_dir(job), "kani", "*", "debug", "build", "*", "*", "out", "*%d%s.out" % (len(short), short)))
+    pats = [p for p in pats if not p.endswith(".symtab.out")]
+    if not pats:
+        return None
+    pats.sort(key=os.path.getmtime)
+    p = subprocess.run(["cbmc", "--show-loops", pats[-1]], stdout=subprocess.PIPE, stderr=subprocess.DEVNULL, text=True, timeout=600)
+    items = []
+    for m in re.finditer(r"^Loop (\S+):\n  file .*? function (.*)$", p.stdout, re.M):
+        lid, fn = m.group(1), m.group(2)
+        for rx, bound in job.unwind_fns.items():
+            if re.search(rx, fn):
+                items.append("%s:%d" % (lid, bound))
+                break
+    return ",".join(items) if items else None
+
+
+CHECK_RE = re.compile(r"^Check (\d+): ([^\n]+)\n\t - Status: (\w+)\n\t - Description: \"(.*?)\"\n\t - Location: ([^\n]*)$", re.M | re.S)
 
 
 def parse(out):
@@ -218,12 +240,14 @@ def run_job(job, logdir):
     if job.stubbing:
         cmd += ["-Z", "stubbing"]
     cmd += list(job.extra_args)
+    if job.unwind_fns and not job.unwindset:
+        job.unwindset = resolve_unwindset(job)
     if job.kind == "witness" and os.environ.get("VERIF_WITNESS_PLAYBACK"):
         # optional: harvest a concrete end-to-end input as an evidence sample (the trace
         # extraction needs several GB on the larger harnesses, so it is off by default)
         cmd += ["-Z", "concrete-playback", "--concrete-playback=print"]
     if job.unwindset:
-        cmd += ["--cbmc-args", "--unwindset", job.unwindset]
+        cmd += ["-Z", "unstable-options", "--cbmc-args", "--unwindset", job.unwindset]
     log = os.path.join(logdir, safe + ".log")
     t0 = time.time()
     timed_out = False
@@ -312,7 +336,7 @@ def replay(job, replay_root):
         cmd += ["-Z", "stubbing"]
     cmd += list(job.extra_args)
     if job.unwindset:
-        cmd += ["--cbmc-args", "--unwindset", job.unwindset]
+        cmd += ["-Z", "unstable-options", "--cbmc-args", "--unwindset", job.unwindset]
     p = subprocess.run(cmd, cwd=art, env=env, stdout=subprocess.PIPE, stderr=subprocess.STDOUT, text=True,
                        preexec_fn=_limit(max(job.mem_gb, 12)), timeout=job.timeout * 2 + 600)
     open(os.path.join(art, "playback-gen.log"), "w").write(p.stdout)
